@@ -132,6 +132,17 @@ int main() {
             for (int r = 0; r < n * t * base; r++) dump_lwe(&ks->ks0_raw[r], nout, res);
             rp.G(n * t * (base - 1), alpha); for (int r = 0; r < n * t * (base - 1); r++) rp.U(nout);
             delete_LweKeySwitchKey(ks); delete_LweKey(ko); delete_LweKey(ki); delete_LweParams(lout); delete_LweParams(lin);
+        } else if (opc == 15) {   // lweCreateKeySwitchKey_old: n nout t b in_key out_key
+            int n = v[0], nout = v[1], t = v[2], b = v[3]; const int base = 1 << b;
+            LweParams *lin = new_LweParams(n, 0., 0.25), *lout = new_LweParams(nout, alpha, 0.25);
+            LweKey *ki = new_LweKey(lin), *ko = new_LweKey(lout);
+            for (int i = 0; i < n; i++) ki->key[i] = (int32_t) v[4 + i];
+            for (int i = 0; i < nout; i++) ko->key[i] = (int32_t) v[4 + n + i];
+            LweKeySwitchKey *ks = new_LweKeySwitchKey(n, t, b, lout);
+            lweCreateKeySwitchKey_old(ks, ki, ko);
+            for (int r = 0; r < n * t * base; r++) dump_lwe(&ks->ks0_raw[r], nout, res);
+            for (int r = 0; r < n * t * base; r++) { rp.G(1, alpha); rp.U(nout); }
+            delete_LweKeySwitchKey(ks); delete_LweKey(ko); delete_LweKey(ki); delete_LweParams(lout); delete_LweParams(lin);
         } else if (opc == 13) {
             int n = v[0], k = v[1], N = v[2], l = v[3], B = v[4], t = v[5], bb = v[6]; const int base = 1 << bb;
             LweParams *lp = new_LweParams(n, alpha, 0.25); TLweParams *tp = new_TLweParams(N, k, alpha2, 0.25); TGswParams *gp = new_TGswParams(l, B, tp);
